@@ -83,7 +83,10 @@ func extractFontCIDType0(c pdf.Cursor, obj pdf.Object) (*dict.CIDFontType0, erro
 		return nil, err
 	}
 
-	d.ToUnicode, _ = pdf.Decode(c, fontDict["ToUnicode"], cmap.ExtractToUnicode)
+	d.ToUnicode, err = pdf.Decode(c, fontDict["ToUnicode"], cmap.ExtractToUnicode)
+	if pdf.IsReadError(err) {
+		return nil, err
+	}
 
 	// fields in the CIDFont dictionary
 
@@ -102,7 +105,10 @@ func extractFontCIDType0(c pdf.Cursor, obj pdf.Object) (*dict.CIDFontType0, erro
 		return nil, err
 	}
 
-	d.ROS, _ = pdf.Decode(c, cidFontDict["CIDSystemInfo"], font.ExtractCIDSystemInfo)
+	d.ROS, err = pdf.Decode(c, cidFontDict["CIDSystemInfo"], font.ExtractCIDSystemInfo)
+	if pdf.IsReadError(err) {
+		return nil, err
+	}
 
 	d.Width, err = decodeCompositeWidths(c, cidFontDict["W"])
 	if err != nil {
